@@ -8,7 +8,9 @@
 (*   an operand x   is <<"elem", v>> (a single element) or <<"list", seq>> (a list)            *)
 (*   a mapping      is a sequence of <<key, value>> pairs with distinct string keys (a dict in *)
 (*                  its insertion order); its class travels beside it                          *)
-(*   a definition set for Dict.__call__ is a function  key -> sequence of parameter names      *)
+(*   a definition set for Dict.__call__ is a function  key -> sequence of parameter names,    *)
+(*                  beside it their kinds (with / without a default, keyword-only), whether    *)
+(*                  the definition declares *args / **kwargs, and what kind of callable it is  *)
 EXTENDS Values, SequencesExt
 
 \* ------------------------------------------------------------------------------------------
